@@ -734,9 +734,16 @@ class HierarchicalMachine(Machine):
         cur_dst = self.state_cls.separator.join(dest_path)
         if trigger in self.scoped.events:
             evt = self.scoped.events[trigger]
-            for src, transitions in evt.transitions.items():
-                evt.transitions[src] = [trans for trans in transitions
-                                        if (src_path and trans.source != cur_src) or (cur_dst and trans.dest != cur_dst)]
+            for src, transitions in list(evt.transitions.items()):
+                remaining = [trans for trans in transitions
+                             if (src_path and trans.source != cur_src) or (cur_dst and trans.dest != cur_dst)]
+                # do not leave empty entries behind: an emptied source would still count as a valid source
+                if remaining:
+                    evt.transitions[src] = remaining
+                else:
+                    del evt.transitions[src]
+            if not evt.transitions:
+                del self.scoped.events[trigger]
         for state_name in self.scoped.states:
             with self(state_name):
                 if state_name in [cur_src, cur_dst]:
